@@ -349,6 +349,10 @@ func ruleClean4(c *Ctx) {
 						continue
 					}
 				}
+				if own := lock8OwnParam(fn); own != nil && thinDelegate(c.P.Func("lib/query.Select")) == fn && lock9OwnOrText(p, arg, own) {
+					c.Ok(key, c.Pos(k), "the caller's forUpdate parameter, made true under SelectQuery.IsForUpdate() of the query this function was given (in the function Select delegates to)")
+					continue
+				}
 				c.Bad(key, c.Pos(k), "forUpdate is bound to "+valueLabel(arg)+", which is neither a constant, a forwarded forUpdate parameter nor SelectQuery.IsForUpdate() in Select: whether a read takes write locks can no longer be decided")
 			}
 		}
